@@ -3,6 +3,7 @@ package gen
 import (
 	"github.com/zclconf/go-cty/cty"
 	"golang.org/x/text/unicode/norm"
+	"math/big"
 	"strconv"
 
 	"verif/harness/core"
@@ -40,6 +41,8 @@ func collLen(r *core.Rand, o ValueOpts, ety cty.Type) int {
 	switch {
 	case r.Chance(1, 50):
 		return 7 + r.Intn(14)
+	case r.Chance(1, 150) && (ety.IsPrimitiveType() || o.depth == 0):
+		return 31 + r.Intn(40) // 31..70: past 32 / 64-wide bookkeeping and small-size fast paths
 	case r.Chance(1, 700) && ety.IsPrimitiveType():
 		return 250 + r.Intn(12)
 	}
@@ -107,10 +110,13 @@ func Value(r *core.Rand, ty cty.Type, o ValueOpts) cty.Value {
 			e := Value(r, ty.ElementType(), in)
 			dup := false
 			for _, x := range es {
-				if mon.ModelEqual(x, e) {
+				if mon.ModelEqual(x, e) || sameExactly(x, e) {
 					dup = true
 					break
 				}
+			}
+			if precisionUnstable(e) {
+				dup = true
 			}
 			if !dup {
 				es = append(es, e)
@@ -121,7 +127,11 @@ func Value(r *core.Rand, ty cty.Type, o ValueOpts) cty.Value {
 		}
 		if ty.ElementType().HasDynamicTypes() {
 			es = homogenize(r, es, ty.ElementType(), in)
-			es = dedupe(es)
+			if d := dedupe(es); len(d) > 0 {
+				es = d
+			} else {
+				es = es[:1] // every member was filtered: keep one rather than build an empty set of an undecided type
+			}
 		}
 		return cty.SetVal(es)
 	case ty.IsMapType():
@@ -181,6 +191,86 @@ func Value(r *core.Rand, ty cty.Type, o ValueOpts) cty.Value {
 	panic("gen.Value: unsupported type " + ty.GoString())
 }
 
+// sameExactly reports whether two wholly known values are the same when numbers are compared by exact value:
+// two numbers of one exact value held at different precisions can be DIFFERENT under documented equality (their
+// shortest decimal texts differ: float64(0.1) at 53 and at 512 bits), which is known finding F-47. A generated
+// set never holds such a pair (C03 builds them on purpose), just as it never holds two model-equal members.
+func sameExactly(a, b cty.Value) bool {
+	if a.IsMarked() || b.IsMarked() || !a.IsWhollyKnown() || !b.IsWhollyKnown() || !a.Type().Equals(b.Type()) {
+		return false
+	}
+	if a.IsNull() || b.IsNull() {
+		return a.IsNull() && b.IsNull()
+	}
+	ty := a.Type()
+	switch {
+	case ty == cty.Number:
+		return a.AsBigFloat().Cmp(b.AsBigFloat()) == 0
+	case ty.IsPrimitiveType() || ty.IsCapsuleType():
+		return mon.ModelEqual(a, b)
+	case ty.IsSetType():
+		return mon.ModelEqual(a, b)
+	case ty.IsListType() || ty.IsTupleType():
+		if a.LengthInt() != b.LengthInt() {
+			return false
+		}
+		as, bs := a.AsValueSlice(), b.AsValueSlice()
+		for i := range as {
+			if !sameExactly(as[i], bs[i]) {
+				return false
+			}
+		}
+		return true
+	case ty.IsMapType() || ty.IsObjectType():
+		am, bm := a.AsValueMap(), b.AsValueMap()
+		if len(am) != len(bm) {
+			return false
+		}
+		for k, av := range am {
+			bv, ok := bm[k]
+			if !ok || !sameExactly(av, bv) {
+				return false
+			}
+		}
+		return true
+	}
+	return false
+}
+
+// precisionUnstable reports whether v holds a number whose IDENTITY under documented equality depends on the
+// precision it happens to be held at: a non-integer that is exactly a float64 but is held at a wider precision,
+// so that its shortest decimal text there (0.299999999999999988897769753748...) differs from the text of the same
+// value at 53 bits (0.3). Any operation that legitimately re-expresses the value at another precision (a codec
+// that writes exact float64 values as float64, say) changes which numbers it is Equal to - known finding F-47.
+// Such a number is fine as a scalar or list member; inside a SET it would make the member count depend on
+// precision, so generated sets do not hold one (C03 builds such sets on purpose).
+func precisionUnstable(v cty.Value) bool {
+	if v.IsMarked() {
+		v, _ = v.Unmark()
+	}
+	if !v.IsKnown() || v.IsNull() {
+		return false
+	}
+	ty := v.Type()
+	switch {
+	case ty == cty.Number:
+		bf := v.AsBigFloat()
+		if bf.IsInf() || bf.IsInt() || bf.Prec() <= 53 {
+			return false
+		}
+		f, acc := bf.Float64()
+		return acc == big.Exact && !mon.ModelEqual(cty.NumberFloatVal(f), v)
+	case ty.IsListType() || ty.IsTupleType() || ty.IsSetType() || ty.IsMapType() || ty.IsObjectType():
+		for it := v.ElementIterator(); it.Next(); {
+			_, e := it.Element()
+			if precisionUnstable(e) {
+				return true
+			}
+		}
+	}
+	return false
+}
+
 var capAPool = []cty.Value{m.NewCapA(0), m.NewCapA(1), m.NewCapA(1)}
 
 // homogenize makes all members of a collection whose declared element type has
@@ -233,9 +323,9 @@ func concretizeNode(r *core.Rand, t *m.TNode) *m.TNode {
 func dedupe(es []cty.Value) []cty.Value {
 	var out []cty.Value
 	for _, e := range es {
-		dup := false
+		dup := precisionUnstable(e)
 		for _, x := range out {
-			if mon.ModelEqual(x, e) {
+			if mon.ModelEqual(x, e) || sameExactly(x, e) {
 				dup = true
 				break
 			}
